@@ -66,7 +66,7 @@ type c01Job struct {
 
 // runAndJudgeLanguage runs all inputs of the grammars and compares accept/reject
 // and error positions with the Earley reference. sigPrefix distinguishes checks.
-func runAndJudgeLanguage(c *fw.Ctx, gs []*c01Grammar, bin string, jobs []genrun.Job, meta []c01Job) {
+func runAndJudgeLanguage(c *fw.Ctx, gs []*c01Grammar, bin string, jobs []genrun.Job, meta []c01Job, checkPos bool) {
 	res, err := genrun.Run(bin, c.WorkDir, jobs, 900)
 	if err != nil {
 		c.Violate("harness/runner/"+fw.Skeleton(err.Error()), err.Error(), nil)
@@ -121,6 +121,9 @@ func runAndJudgeLanguage(c *fw.Ctx, gs []*c01Grammar, bin string, jobs []genrun.
 		c.Count("rejected", 1)
 		if t.ErrKind != "syntax" {
 			c.Violate("reject/not-a-syntax-error", desc(), files)
+			continue
+		}
+		if !checkPos {
 			continue
 		}
 		ws, we := len(m.in.text), len(m.in.text)
@@ -232,7 +235,7 @@ func c01Run(c *fw.Ctx) {
 	if c.Case == 0 && len(gs) > 0 {
 		c.Sample(map[string]any{"grammar": gs[0].pkg.Text, "example_input": meta[len(meta)/2].in.text})
 	}
-	runAndJudgeLanguage(c, gs, bin, jobs, meta)
+	runAndJudgeLanguage(c, gs, bin, jobs, meta, true)
 }
 
 func init() {
